@@ -15,7 +15,8 @@ for d in seeded/*/ seeded/benign/*/; do
     ids=$(python3 -c "import json;print(' '.join(json.load(open('$d/meta.json'))['checks_run'][0].split()[2:]))")
     want=0
   else
-    ids=$(python3 -c "import json;print(' '.join(json.load(open('$d/meta.json'))['detected_by']))" | sed 's/ (.*//')
+    # (entries such as "C08 (thorough tier)" are not part of the quick-tier regression)
+    ids=$(python3 -c "import json;print(' '.join(x.split()[0] for x in json.load(open('$d/meta.json'))['detected_by'] if 'thorough' not in x))")
     want=1
   fi
   out=$(tools/try_mutant_wt.sh $d/patch.diff $ids 2>&1)
